@@ -18,6 +18,12 @@ Extra stage: a few end-to-end CLI runs (`python -m picked_group_fdr.quantificati
 `python -m picked_group_fdr --do_quant --skip_lfq`) whose written proteinGroups.txt columns are
 compared with the model's values formatted with the writer's '%.0f'.
 
+The PEP cutoff is observed from outside: `_retain_only_identified_precursors` and every column's `append` are
+wrapped, the values they RECEIVE are recorded (as exact rationals of `float(value)`, plus whether each is a double)
+and compared with the model's `PgFdr.C17.cutoff` and with the oracle's Fraction recomputation: the cutoff must be
+exactly one of the finite PEPs or 1.0.  30 % of the cases draw PEPs from clusters that differ only beyond the 7th
+significant digit.
+
 Numbers: intensities are small dyadic rationals (integers and halves), PEPs are k/1024, so every
 float sum the code performs is exact; iBAQ quotients are compared after one correctly rounded
 division of the model's exact rational.  A case whose running PEP mean rounds onto the FDR level
@@ -156,15 +162,47 @@ def o_cutoff(peps, level):
     return Fraction(1)
 
 
+def _dyadic(v):
+    d = v.denominator
+    return d & (d - 1) == 0 and d <= 2**20
+
+
 def o_near_tie(peps, level):
+    """True when the float scan of the code and the exact scan may decide differently: a running mean that rounds
+    onto the level without being equal to it, or - when the PEPs are not all small dyadic rationals, so that the
+    float running sums are rounded - a running mean of two or more values within 2^-40 (relative) of the level."""
     fin = sorted(unrat(p) for p in peps if not isinstance(p, str))
+    exact_sums = all(_dyadic(v) for v in fin)
     s = Fraction(0)
     for k, v in enumerate(fin):
         s += v
         m = s / (k + 1)
         if m != level and (m.numerator / m.denominator) == float(level):
             return True
+        if not exact_sums and k >= 1 and abs(m - level) <= Fraction(1, 2**40) * max(abs(level), abs(m)):
+            return True
     return False
+
+
+# PEP values that are NOT representable in single precision and clusters of values that differ only beyond the
+# 7th significant digit: a cutoff (or a comparison with it) that went through float32 cannot reproduce them
+CLOSE_BASES = [0.1, 0.2, 0.01, 0.003, 0.05, 0.0123456789, 0.3333333333333333, 0.007, 0.7]
+
+
+def close_pep(rng, bases):
+    b = rng.choice(bases)
+    d = rng.choice([0, 0, 1, 1, 2, -1, 3])
+    return rat(float(b + d * rng.choice([1e-10, 1e-10, 1e-9, 3e-12])))
+
+
+def with_cutoff_obs(view):
+    """what the observation of the real writer must show for a model / oracle view: every value handed to the
+    precursor filter and to the columns is the cutoff, as a double"""
+    if isinstance(view, dict) and "cutoff" in view:
+        view = dict(view)
+        view["cutoffSeen"] = [view["cutoff"]]
+        view["cutoffDouble"] = True
+    return view
 
 
 def o_pq(r):
@@ -544,11 +582,14 @@ class P(Prop):
         "Experiment columns, charges 2-3, 8 peptides (one modified form), MBR rows (empty PEP), NaN / empty intensities, "
         "label free / SILAC 2 / SILAC 3 / (rarely 1 = rejected) / TMT 1-2 channels; 1-4 reported groups over 6 base "
         "proteins with REV__/rev_/CON__ variants, rows unique / shared / partly unknown / decoy-mixed; PSM FDR levels on "
-        "and off the attained running means; non-trivial = at least one group keeps a used precursor and at least one "
+        "and off the attained running means; in 30 % of the cases the PEPs come from clusters around non-dyadic values "
+        "(0.1, 0.2, 0.0123456789, ...) whose members differ only beyond the 7th significant digit (not representable in "
+        "single precision); non-trivial = at least one group keeps a used precursor and at least one "
         "row is left out; distinct by sha1 of the case"
     )
     assumptions = [
-        "float sums of the generated dyadic intensities and PEPs are exact; float division is correctly rounded (IEEE)",
+        "float sums of the generated dyadic intensities and PEPs are exact; float division is correctly rounded (IEEE); "
+        "for the non-dyadic PEP clusters a running mean of >= 2 values within 2^-40 (relative) of the level is a near tie (skipped, counted)",
         "csv/float parsing of the rendered evidence fields returns the rendered doubles (repr round trip)",
         "only discard_shared_peptides=True (hard-coded in do_quantification) and no experimental-design file are modelled",
     ]
@@ -591,6 +632,7 @@ class P(Prop):
         if not layout["has_experiment"]:
             exps = ["Experiment1"]
         pep_grid = rng.choice([64, 1024, 1024])
+        close_bases = rng.sample(CLOSE_BASES, rng.choice([1, 2, 2, 3])) if rng.random() < 0.3 else None
         nfiles = rng.choice([1, 1, 1, 2])
         files = []
         next_id = 0
@@ -618,6 +660,8 @@ class P(Prop):
                     pp = "nan"
                 elif r < 0.25:
                     pp = "inf"
+                elif close_bases and r < 0.9:
+                    pp = close_pep(rng, close_bases)
                 elif r < 0.8:
                     pp = rat(Fraction(rng.randint(0, max(1, pep_grid // 16)), pep_grid))
                 else:
@@ -749,15 +793,48 @@ class P(Prop):
             )
             attached = [[self._pq(q) for q in pgr.precursorQuants] for pgr in pgrs]
             peps = [enc_pep(x[0]) for x in post_err_probs]
+            # the cutoff is OBSERVED FROM OUTSIDE: every value the real append_quant_columns hands to the precursor
+            # filter and to each column's append (in the writer's own column order) is recorded as it is
+            from picked_group_fdr.writers import base as wbase
+
+            seen = []
+            cols = writer.get_columns()
+
+            def spy_on(orig, name):
+                def spy(results_, cutoff_, *a, **kw):
+                    seen.append((name, cutoff_))
+                    return orig(results_, cutoff_, *a, **kw)
+
+                return spy
+
+            for c in cols:
+                c.append = spy_on(c.append, type(c).__name__)
+            writer.get_columns = lambda: cols
+            orig_retain = wbase._retain_only_identified_precursors
+
+            def spy_retain(precursor_list, post_err_prob_cutoff, *a, **kw):
+                seen.append(("filter", post_err_prob_cutoff))
+                return orig_retain(precursor_list, post_err_prob_cutoff, *a, **kw)
+
+            wbase._retain_only_identified_precursors = spy_retain
             try:
                 writer.append_quant_columns(pgrs, post_err_probs, level)
             except ValueError as e:
                 if "SILAC channels" in str(e):
                     return {"err": "bad_silac_channels"}
                 raise
-            from picked_group_fdr import fdr, helpers
-
-            cutoff = fdr.calc_post_err_prob_cutoff([x[0] for x in post_err_probs if not helpers.is_mbr(x[0])], level)
+            finally:
+                wbase._retain_only_identified_precursors = orig_retain
+            col_vals = [v for name, v in seen if name != "filter"]
+            if len(col_vals) != len(cols):
+                return {"err": "columns_not_called", "called": len(col_vals), "columns": len(cols)}
+            cutoff = col_vals[0]
+            cutoff_seen = []
+            for _, v in seen:
+                r = rat(float(v))  # float(): under NumPy 2 `np.float32(x) == python_float` compares in single precision
+                if r not in cutoff_seen:
+                    cutoff_seen.append(r)
+            cutoff_double = all(isinstance(v, float) for _, v in seen)  # np.float64 is a float, np.float32 is not
             exps = list(pgrs.experiments)
             S = pgrs.num_silac_channels if pgrs.num_silac_channels > 0 else 0
             T = pgrs.num_tmt_channels
@@ -805,6 +882,8 @@ class P(Prop):
                 "nTmt": int(pgrs.num_tmt_channels),
                 "peps": peps,
                 "cutoff": rat(float(cutoff)),
+                "cutoffSeen": cutoff_seen,
+                "cutoffDouble": cutoff_double,
                 "attached": attached,
                 "groups": groups,
             }
@@ -849,7 +928,7 @@ class P(Prop):
     def model_view(self, case, resp, impl_out):
         if case.get("cli"):
             return table_from_view(round_quotients(resp))
-        return round_quotients(resp)
+        return with_cutoff_obs(round_quotients(resp))
 
     def impl_view(self, case, impl_out):
         if isinstance(impl_out, dict) and "_rec" in impl_out:
@@ -873,7 +952,22 @@ class P(Prop):
             return ("written proteinGroups.txt differs from the recomputation (expected vs written) at " + d) if d else None
         if self._near_tie(case):
             return None
-        want = round_quotients(recompute(case))
+        want = with_cutoff_obs(round_quotients(recompute(case)))
+        if "cutoffSeen" in impl_out:
+            # the value handed to the precursor filter and to the columns must be exactly one of the finite PEPs of the
+            # identified target precursors, or 1.0 (recomputed here from the evidence rows, exact rationals)
+            fin = {unrat(p) for p in want.get("peps", []) if not isinstance(p, str)}
+            for r in impl_out["cutoffSeen"]:
+                v = unrat(r)
+                if v != 1 and v not in fin:
+                    return "the PEP cutoff handed to the precursor filter / the columns is %r, which is neither 1.0 nor one of the PEPs %s" % (
+                        v.numerator / v.denominator, sorted(x.numerator / x.denominator for x in fin))
+            if impl_out["cutoffSeen"] != want["cutoffSeen"]:
+                return "the PEP cutoff handed to the precursor filter / the columns is %s, the first PEP whose running mean exceeds the level is %r" % (
+                    [rat_to_float(r) for r in impl_out["cutoffSeen"]], rat_to_float(want["cutoff"]))
+            # whether the value is a double is part of the correspondence (model view), not of the oracle: a single
+            # precision cutoff with a representable value is a hazard, a failing input needs a wrong value / wrong rows
+            want["cutoffDouble"] = impl_out["cutoffDouble"]
         d = first_diff(want, impl_out, "out")
         if d:
             return "recomputation from the evidence rows differs (expected vs implementation) at " + d
@@ -912,6 +1006,8 @@ class P(Prop):
         f.append("rows=%s" % (n if n < 8 else "8+"))
         if any(r["pp"] == "nan" for r in all_rows(case)):
             f.append("has_mbr")
+        if any(not isinstance(r["pp"], str) and not _dyadic(unrat(r["pp"])) for r in all_rows(case)):
+            f.append("peps_beyond_float32")
         if isinstance(impl_out, dict) and "groups" in impl_out:
             f.append("experiments=%d" % len(impl_out["experiments"]))
             n_att = sum(len(a) for a in impl_out["attached"])
